@@ -4,14 +4,45 @@ NOT_YET = {}
 _corr = ("Assumes: the hand-written Lean model mirrors the Rust code (checked on every run by the differential "
          "correspondence run, not proved); Lean kernel + axioms propext/Classical.choice/Quot.sound; ")
 CLAIMS = {
- "C08": dict(
-    text="Lean 4 theorems over the model of add_months/get_roll/get_imm/get_eom/is_leap_year for every integer month "
-         "offset, year, month and roll day (C08_add_months_ym, C08_add_months, C08_add_months_imm, C08_imm, C08_eom, "
-         "C08_leap, C08_get_roll_total); the model is tied to the code by an exhaustive correspondence run over all "
-         "84371 dates / 2772 months and ~450k add_months cases.",
-    design_ref="DESIGN.md §3 C08",
-    note=_corr + "chrono's calendar arithmetic is modelled (toDay/ofDay/weekday) and cross-checked exhaustively on 1970-2200, not verified.",
-    technique="Lean 4 proof (omega/induction) over hand-written model + exhaustive differential correspondence"),
+ "C01": dict(
+    text="Lean 4 + Mathlib theorems over ℝ for EVERY formula of the grammar (induction on the expression): the model's "
+         "dual-number evaluation returns the plain value (C01_value) and, for every variable name, the true derivative "
+         "of the formula along any differentiable motion of the leaves consistent with their tags (C01_grad_exact, "
+         "C01_partial_derivative), via scalar-jet soundness against Mathlib's HasDerivAt (13 operators incl. Φ via FTC "
+         "and Φ⁻¹ via the inverse function theorem) and a refinement from the list-level dual numbers to jets "
+         "(C01_refines); float/dual mixing = promotion for +,-,* and / in both operand positions (C01_mixed_eq_promoted, C01_mixed_div), owned = borrowed (C01_variants). "
+         "Correspondence: thousands of random formulas inside the differentiable domain, close-float.",
+    design_ref="DESIGN.md §3 C01",
+    note=_corr + "f64 rounding, glibc exp/log/pow, statrs Φ/Φ⁻¹ modelled not verified; mixed-operand theorems are first order (second order: correspondence).",
+    technique="Lean 4 + Mathlib proof (structural induction, HasDerivAt) over hand-written model + differential correspondence"),
+ "C02": dict(
+    text="Lean 4 + Mathlib theorems over ℝ, a complete chain from the list-level code to real analysis: (1) the Dual2 chain "
+         "rules, as scalar 2-jets (value, first, half second derivative), are sound along every twice-differentiable "
+         "curve for every formula (C02_second_exact) and agree with first order in value and gradient (C02_proj); (2) the "
+         "LIST-LEVEL Dual2 arithmetic (alignment of gradient and Hessian blocks by variable name, any layouts) refines "
+         "these jets along every direction in the plane of two variable names (C02_refines, induction over the formula "
+         "with name-indexed specifications of +,-,*,/,pow,exp,log,Φ,Φ⁻¹,abs,neg); hence (3) value, gradient and Hessian "
+         "entries, diagonal and mixed, of the evaluated number are the true derivatives (C02_hessian_exact, "
+         "C02_hessian_entries by polarisation) and the Hessian is symmetric (C02_symmetric); read-back doubles the stored "
+         "half (C02_readback); conversion down drops only the Hessian (C02_from_drops_only_hessian). Correspondence: "
+         "random formulas, Hessian per name pair, symmetry/finite-derivative oracle restricted to formulas whose "
+         "intermediate values are finite.",
+    design_ref="DESIGN.md §3 C02",
+    note=_corr + "as C01: f64 rounding, libm, statrs Φ/Φ⁻¹ modelled not verified; float/Dual2 mixed operators are covered by "
+         "correspondence (the theorems use promoted constants).",
+    technique="Lean 4 + Mathlib proof (second-order jet soundness + list-level refinement by induction) + differential correspondence with symmetry oracle"),
+ "C03": dict(
+    text="Lean 4 theorems over the list-level model of Vars::vars_cmp/to_new_vars/to_union_vars and the Dual +,-,*,== "
+         "implementations, for every pair of shape-valid numbers over any commutative ring and every pointer-equality "
+         "flag consistent with the invariant: results are well-formed and carry exactly the union of names (C03_wf), act "
+         "name by name (C03_hom), are independent of layout, zero-padding and storage sharing (C03_layout_irrelevant, "
+         "C03_ptr_irrelevant), equality = agreement per name (C03_eq). The same for second-order numbers incl. the stored "
+         "half-Hessian per PAIR of names and the product rule with the symmetrised cross term (C03_wf_dual2, C03_hom_dual2, "
+         "C03_layout_irrelevant_dual2, C03_ptr_irrelevant_dual2, and C03_eq_dual2: == is agreement of value, gradient by name "
+         "and Hessian by name pair; Proofs/Dual2Layout.lean). Correspondence is exhaustive over layouts of a 3/4-name pool, bit-exact.",
+    design_ref="DESIGN.md §3 C03",
+    note=_corr + "f64 rounding modelled (theorems over rings; exact dyadic inputs in the run); the remainder operator's name-indexed spec is in C19.",
+    technique="Lean 4 proof (list induction, name-indexed denotation refinement) + exhaustive-layout differential correspondence"),
  "C04": dict(
     text="Lean 4 theorems over the model of DateRoll::roll and its eight search loops, for every calendar (arbitrary "
          "weekday/holiday/settlement predicates), date, rule and settlement flag: first-eligible characterisation "
@@ -49,153 +80,14 @@ CLAIMS = {
     note="Trusted: the dump (harness walks is_weekday/is_holiday over all 84371 dates), the docstring/CSV parsers, the "
          "transcription of the pandas rule scripts into Lean (specification), Lean kernel (GMP arithmetic in decide +kernel).",
     technique="Lean 4 kernel decision (decide +kernel) over tables regenerated from the running code"),
- "C03": dict(
-    text="Lean 4 theorems over the list-level model of Vars::vars_cmp/to_new_vars/to_union_vars and the Dual +,-,*,== "
-         "implementations, for every pair of shape-valid numbers over any commutative ring and every pointer-equality "
-         "flag consistent with the invariant: results are well-formed and carry exactly the union of names (C03_wf), act "
-         "name by name (C03_hom), are independent of layout, zero-padding and storage sharing (C03_layout_irrelevant, "
-         "C03_ptr_irrelevant), equality = agreement per name (C03_eq). The same for second-order numbers incl. the stored "
-         "half-Hessian per PAIR of names and the product rule with the symmetrised cross term (C03_wf_dual2, C03_hom_dual2, "
-         "C03_layout_irrelevant_dual2, C03_ptr_irrelevant_dual2; Proofs/Dual2Layout.lean); only == on second-order numbers "
-         "remains correspondence-only. Correspondence is exhaustive over layouts of a 3/4-name pool, bit-exact.",
-    design_ref="DESIGN.md §3 C03",
-    note=_corr + "f64 rounding modelled (theorems over rings; exact dyadic inputs in the run); == on Dual2 not a theorem.",
-    technique="Lean 4 proof (list induction, name-indexed denotation refinement) + exhaustive-layout differential correspondence"),
- "C17": dict(
-    text="Lean 4 theorems for every shape-valid number and every distinct request list: gradient1 = map of per-name "
-         "derivatives in request order on both code paths (C17_gradient1, C17_gradient1_dual2), gradient2 entry (i,j) = "
-         "2 x stored half-Hessian per name pair (C17_gradient2), manifold elements (C17_manifold, C17_manifold_elems), "
-         "and the PRODUCT RULE ON MANIFOLDS: over any field with 2 != 0, for all layouts, the manifold element of a*b has "
-         "the value and gradient of M(a)*b + a*M(b) (C17_manifold_product_rule, from the second-order name-indexed product "
-         "rule). The same rule is checked on the implementation by a model-free oracle (it exposed a genuine defect, since "
-         "repaired).",
-    design_ref="DESIGN.md §3 C17",
-    note=_corr + "theorems over rings/fields; f64 rounding modelled.",
-    technique="Lean 4 proof over list model + exhaustive request-order correspondence + model-free oracle"),
- "C18": dict(
-    text="Lean 4 theorems for every scalar type (no algebraic law, so f64 itself): the 3x3 set_order table and value "
-         "preservation (C18_set_order, C18_values_preserved, C18_names_attached), From conversions (C18_from), Number "
-         "arithmetic = contained-type arithmetic and is refused exactly for Dual/Dual2 mixes (C18_number_ops, "
-         "C18_number_ops_refusal, C18_number_cmp_refusal). Correspondence exhaustive over kind x kind x operator.",
-    design_ref="DESIGN.md §3 C18",
-    note=_corr + "refusal = panic observed through catch_unwind.",
-    technique="Lean 4 proof (case analysis, definitional) + exhaustive differential correspondence"),
- "C19": dict(
-    text="Lean 4 theorems: comparisons depend on values only (C19_ord), abs flips value and all derivative arrays "
-         "together (C19_abs), sum = left fold from zero (C19_sum), a % b = a - trunc(a/b) b in value and per-name "
-         "derivative over any field (C19_rem, C19_rem_def, C19_rem_float), zero/one neutrality (C19_neutral).",
-    design_ref="DESIGN.md §3 C19",
-    note=_corr + "fmod vs a - trunc(a/b) b rounding for huge quotients not modelled; abs at exactly 0 follows the code's `> 0` test.",
-    technique="Lean 4 proof over list model + differential correspondence"),
- "C01": dict(
-    text="Lean 4 + Mathlib theorems over ℝ for EVERY formula of the grammar (induction on the expression): the model's "
-         "dual-number evaluation returns the plain value (C01_value) and, for every variable name, the true derivative "
-         "of the formula along any differentiable motion of the leaves consistent with their tags (C01_grad_exact, "
-         "C01_partial_derivative), via scalar-jet soundness against Mathlib's HasDerivAt (13 operators incl. Φ via FTC "
-         "and Φ⁻¹ via the inverse function theorem) and a refinement from the list-level dual numbers to jets "
-         "(C01_refines); float/dual mixing = promotion (C01_mixed_eq_promoted), owned = borrowed (C01_variants). "
-         "Correspondence: thousands of random formulas inside the differentiable domain, close-float.",
-    design_ref="DESIGN.md §3 C01",
-    note=_corr + "f64 rounding, glibc exp/log/pow, statrs Φ/Φ⁻¹ modelled not verified; f64/Dual division mixing not in C01_mixed_eq_promoted.",
-    technique="Lean 4 + Mathlib proof (structural induction, HasDerivAt) over hand-written model + differential correspondence"),
- "C02": dict(
-    text="Lean 4 + Mathlib theorems over ℝ, a complete chain from the list-level code to real analysis: (1) the Dual2 chain "
-         "rules, as scalar 2-jets (value, first, half second derivative), are sound along every twice-differentiable "
-         "curve for every formula (C02_second_exact) and agree with first order in value and gradient (C02_proj); (2) the "
-         "LIST-LEVEL Dual2 arithmetic (alignment of gradient and Hessian blocks by variable name, any layouts) refines "
-         "these jets along every direction in the plane of two variable names (C02_refines, induction over the formula "
-         "with name-indexed specifications of +,-,*,/,pow,exp,log,Φ,Φ⁻¹,abs,neg); hence (3) value, gradient and Hessian "
-         "entries, diagonal and mixed, of the evaluated number are the true derivatives (C02_hessian_exact, "
-         "C02_hessian_entries by polarisation) and the Hessian is symmetric (C02_symmetric); read-back doubles the stored "
-         "half (C02_readback); conversion down drops only the Hessian (C02_from_drops_only_hessian). Correspondence: "
-         "random formulas, Hessian per name pair, symmetry/finite-derivative oracle restricted to formulas whose "
-         "intermediate values are finite.",
-    design_ref="DESIGN.md §3 C02",
-    note=_corr + "as C01: f64 rounding, libm, statrs Φ/Φ⁻¹ modelled not verified; float/Dual2 mixed operators are covered by "
-         "correspondence (the theorems use promoted constants).",
-    technique="Lean 4 + Mathlib proof (second-order jet soundness + list-level refinement by induction) + differential correspondence with symmetry oracle"),
- "C03": dict(
-    text="Lean 4 theorems over the list-level model of Vars::vars_cmp/to_new_vars/to_union_vars and the Dual +,-,*,== "
-         "implementations, for every pair of shape-valid numbers over any commutative ring and every pointer-equality "
-         "flag consistent with the invariant: results are well-formed and carry exactly the union of names (C03_wf), act "
-         "name by name (C03_hom), are independent of layout, zero-padding and storage sharing (C03_layout_irrelevant, "
-         "C03_ptr_irrelevant), equality = agreement per name (C03_eq). The same for second-order numbers incl. the stored "
-         "half-Hessian per PAIR of names and the product rule with the symmetrised cross term (C03_wf_dual2, C03_hom_dual2, "
-         "C03_layout_irrelevant_dual2, C03_ptr_irrelevant_dual2; Proofs/Dual2Layout.lean); only == on second-order numbers "
-         "remains correspondence-only. Correspondence is exhaustive over layouts of a 3/4-name pool, bit-exact.",
-    design_ref="DESIGN.md §3 C03",
-    note=_corr + "f64 rounding modelled (theorems over rings; exact dyadic inputs in the run); == on Dual2 not a theorem.",
-    technique="Lean 4 proof (list induction, name-indexed denotation refinement) + exhaustive-layout differential correspondence"),
- "C17": dict(
-    text="Lean 4 theorems for every shape-valid number and every distinct request list: gradient1 = map of per-name "
-         "derivatives in request order on both code paths (C17_gradient1, C17_gradient1_dual2), gradient2 entry (i,j) = "
-         "2 x stored half-Hessian per name pair (C17_gradient2), manifold elements (C17_manifold, C17_manifold_elems), "
-         "and the PRODUCT RULE ON MANIFOLDS: over any field with 2 != 0, for all layouts, the manifold element of a*b has "
-         "the value and gradient of M(a)*b + a*M(b) (C17_manifold_product_rule, from the second-order name-indexed product "
-         "rule). The same rule is checked on the implementation by a model-free oracle (it exposed a genuine defect, since "
-         "repaired).",
-    design_ref="DESIGN.md §3 C17",
-    note=_corr + "theorems over rings/fields; f64 rounding modelled.",
-    technique="Lean 4 proof over list model + exhaustive request-order correspondence + model-free oracle"),
- "C18": dict(
-    text="Lean 4 theorems for every scalar type (no algebraic law, so f64 itself): the 3x3 set_order table and value "
-         "preservation (C18_set_order, C18_values_preserved, C18_names_attached), From conversions (C18_from), Number "
-         "arithmetic = contained-type arithmetic and is refused exactly for Dual/Dual2 mixes (C18_number_ops, "
-         "C18_number_ops_refusal, C18_number_cmp_refusal). Correspondence exhaustive over kind x kind x operator.",
-    design_ref="DESIGN.md §3 C18",
-    note=_corr + "refusal = panic observed through catch_unwind.",
-    technique="Lean 4 proof (case analysis, definitional) + exhaustive differential correspondence"),
- "C19": dict(
-    text="Lean 4 theorems: comparisons depend on values only (C19_ord), abs flips value and all derivative arrays "
-         "together (C19_abs), sum = left fold from zero (C19_sum), a % b = a - trunc(a/b) b in value and per-name "
-         "derivative over any field (C19_rem, C19_rem_def, C19_rem_float), zero/one neutrality (C19_neutral).",
-    design_ref="DESIGN.md §3 C19",
-    note=_corr + "fmod vs a - trunc(a/b) b rounding for huge quotients not modelled; abs at exactly 0 follows the code's `> 0` test.",
-    technique="Lean 4 proof over list model + differential correspondence"),
- "C01": dict(
-    text="Lean 4 + Mathlib theorems over ℝ for EVERY formula of the grammar (induction on the expression): the model's "
-         "dual-number evaluation returns the plain value (C01_value) and, for every variable name, the true derivative "
-         "of the formula along any differentiable motion of the leaves consistent with their tags (C01_grad_exact, "
-         "C01_partial_derivative), via scalar-jet soundness against Mathlib's HasDerivAt (13 operators incl. Φ via FTC "
-         "and Φ⁻¹ via the inverse function theorem) and a refinement from the list-level dual numbers to jets "
-         "(C01_refines); float/dual mixing = promotion (C01_mixed_eq_promoted), owned = borrowed (C01_variants). "
-         "Correspondence: thousands of random formulas inside the differentiable domain, close-float.",
-    design_ref="DESIGN.md §3 C01",
-    note=_corr + "f64 rounding, glibc exp/log/pow, statrs Φ/Φ⁻¹ modelled not verified; f64/Dual division mixing not in C01_mixed_eq_promoted.",
-    technique="Lean 4 + Mathlib proof (structural induction, HasDerivAt) over hand-written model + differential correspondence"),
- "C02": dict(
-    text="Lean 4 + Mathlib theorems over ℝ: the Dual2 chain rules, as scalar 2-jets (value, first, half second "
-         "derivative), are sound along every twice-differentiable curve for every formula (C02_second_exact), agree with "
-         "first order in value and gradient (C02_proj), read-back doubles the half-Hessian (C02_readback), conversion down "
-         "drops only the Hessian (C02_from_drops_only_hessian). PARTIAL: the refinement from list-level Dual2 arithmetic "
-         "(Hessian blocks aligned by name) to 2-jets is covered by correspondence (Hessian per name pair, symmetry oracle) "
-         "and C03's exhaustive layout run, not by a theorem.",
-    design_ref="DESIGN.md §3 C02",
-    note=_corr + "as C01; list-level Dual2 -> jet refinement not proved (partial).",
-    technique="Lean 4 + Mathlib proof of second-order jet soundness + differential correspondence with symmetry oracle"),
- "C11": dict(
-    text="Lean 4 theorems: index_left terminates and returns the clamped bracketing interval for every list of >= 2 nodes "
-         "and every query (C11_index_left, by induction over the recursive bisection incl. its n == 3 special case), which "
-         "is unique for strictly increasing nodes (C11_index_left_unique, _cases); every look-up uses exactly that interval "
-         "(C11_interval_used); flat rules return a node value itself (C11_flat_exact, every scalar type); over ℝ the "
-         "straight-line, log-linear and zero-rate closed forms hit their nodes and the first two stay between them "
-         "(C11_linear, C11_log_linear, C11_zero_rate); supply order is irrelevant (C11_order_irrelevant).",
-    design_ref="DESIGN.md §3 C11",
-    note=_corr + "timestamps modelled as Int seconds; i64 -> f64 conversion exact below 2^53.",
-    technique="Lean 4 proof (induction over the bisection, sorting lemmas, real analysis) + differential correspondence"),
- "C12": dict(
-    text="Lean 4 theorems: any sequence of order switches keeps every node value and date bit for bit "
-         "(C12_values_invariant), tags of a float curve are <id><i> in date order (C12_tags), 1<->2 keep names "
-         "(C12_keep_names), looked-up values are order-independent bit for bit for the smooth rules "
-         "(C12_lookup_value_invariant), index value = base / value, 0 before the first node, error without base "
-         "(C12_index_value); the first-order sensitivities of the straight-line, log-linear and zero-rate rules (both "
-         "branches of the latter) are the C01 jets of the rules' formulas, i.e. the true derivatives (C12_grad_linear, "
-         "C12_grad_log_linear, C12_grad_zero_rate), and vanish for nodes outside the interval (C12_local); at second order "
-         "value, gradient and Hessian of each smooth rule on Dual2 nodes are, along every direction of two variable names, "
-         "the C02 2-jet of the rule's formula (C12_hess_linear, C12_hess_log_linear, C12_hess_zero_rate).",
-    design_ref="DESIGN.md §3 C12",
-    note=_corr + "theorems over ℝ; f64 rounding modelled.",
-    technique="Lean 4 proof over state-machine model of set_ad_order + differential correspondence"),
+ "C08": dict(
+    text="Lean 4 theorems over the model of add_months/get_roll/get_imm/get_eom/is_leap_year for every integer month "
+         "offset, year, month and roll day (C08_add_months_ym, C08_add_months, C08_add_months_imm, C08_imm, C08_eom, "
+         "C08_leap, C08_get_roll_total); the model is tied to the code by an exhaustive correspondence run over all "
+         "84371 dates / 2772 months and ~450k add_months cases.",
+    design_ref="DESIGN.md §3 C08",
+    note=_corr + "chrono's calendar arithmetic is modelled (toDay/ofDay/weekday) and cross-checked exhaustively on 1970-2200, not verified.",
+    technique="Lean 4 proof (omega/induction) over hand-written model + exhaustive differential correspondence"),
  "C09": dict(
     text="Lean 4 theorems over the model of the triangulation: over any field, whenever it returns a result every one of "
          "the n x n rates is populated and equals the ratio of the two currencies' potentials (C09_arbitrage_free), hence "
@@ -220,6 +112,29 @@ CLAIMS = {
     design_ref="DESIGN.md §3 C10",
     note=_corr + "sensitivity formula not a single theorem (partial).",
     technique="Lean 4 proof (state machine, homomorphism/parametricity of the triangulation) + differential correspondence + model-free oracle"),
+ "C11": dict(
+    text="Lean 4 theorems: index_left terminates and returns the clamped bracketing interval for every list of >= 2 nodes "
+         "and every query (C11_index_left, by induction over the recursive bisection incl. its n == 3 special case), which "
+         "is unique for strictly increasing nodes (C11_index_left_unique, _cases); every look-up uses exactly that interval "
+         "(C11_interval_used); flat rules return a node value itself (C11_flat_exact, every scalar type); over ℝ the "
+         "straight-line, log-linear and zero-rate closed forms hit their nodes and the first two stay between them "
+         "(C11_linear, C11_log_linear, C11_zero_rate); supply order is irrelevant (C11_order_irrelevant).",
+    design_ref="DESIGN.md §3 C11",
+    note=_corr + "timestamps modelled as Int seconds; i64 -> f64 conversion exact below 2^53.",
+    technique="Lean 4 proof (induction over the bisection, sorting lemmas, real analysis) + differential correspondence"),
+ "C12": dict(
+    text="Lean 4 theorems: any sequence of order switches keeps every node value and date bit for bit "
+         "(C12_values_invariant), tags of a float curve are <id><i> in date order (C12_tags), 1<->2 keep names "
+         "(C12_keep_names), looked-up values are order-independent bit for bit for the smooth rules "
+         "(C12_lookup_value_invariant), index value = base / value, 0 before the first node, error without base "
+         "(C12_index_value); the first-order sensitivities of the straight-line, log-linear and zero-rate rules (both "
+         "branches of the latter) are the C01 jets of the rules' formulas, i.e. the true derivatives (C12_grad_linear, "
+         "C12_grad_log_linear, C12_grad_zero_rate), and vanish for nodes outside the interval (C12_local); at second order "
+         "value, gradient and Hessian of each smooth rule on Dual2 nodes are, along every direction of two variable names, "
+         "the C02 2-jet of the rule's formula (C12_hess_linear, C12_hess_log_linear, C12_hess_zero_rate).",
+    design_ref="DESIGN.md §3 C12",
+    note=_corr + "theorems over ℝ; f64 rounding modelled.",
+    technique="Lean 4 proof over state-machine model of set_ad_order + differential correspondence"),
  "C13": dict(
     text="Lean 4 + Mathlib theorems over the model of dsolve21_/dsolve_upper21_/argabsmax/row and element swaps: over ANY "
          "commutative ring with division, for every size n, every matrix, right-hand side and pivot-comparison function, "
@@ -260,16 +175,42 @@ CLAIMS = {
     technique="Lean 4 + Mathlib proof (composition of C13 soundness with the collocation matrix) + differential correspondence + model-free oracle"),
  "C16": dict(
     text="Lean 4 theorems: the bincode wire format of Dual, Dual2, Number, PPSpline (3 types), FXRates (quotes + currencies "
-         "only) and NamedCal (name only), modelled from serde's derive layout, round-trips for every value whose sizes fit "
+         "only), NamedCal (name only) and Curve (typed node map, interpolator, id, convention, modifier, index base, named calendar), modelled from serde's derive layout, round-trips for every value whose sizes fit "
          "64 bits - floats as arbitrary bit patterns (C16_bincode_*; combinator lemmas for integers, sequences, strings, "
          "options, ndarray). The model's bytes are compared byte for byte with the implementation's on every run. PARTIAL "
-         "(validation, not proof): JSON text layer, tagged entry point, Cal/UnionCal, the Curve decoder and 'answers every "
+         "(validation, not proof): JSON text layer, tagged entry point, Cal/UnionCal and 'answers every "
          "query identically' are decided by model-free round trips on the real code with arbitrary finite doubles (they "
          "exposed the missing float_roundtrip feature, repaired).",
     design_ref="DESIGN.md §3 C16",
     note="Trusted: serde/serde_json/ryu/bincode/chrono/ndarray implementations (validated by byte comparison and round trips "
          "only); Lean kernel; the wire-format model mirrors observed bytes.",
     technique="Lean 4 proof of the wire-format round trip + byte-exact differential correspondence + model-free round trips"),
+ "C17": dict(
+    text="Lean 4 theorems for every shape-valid number and every distinct request list: gradient1 = map of per-name "
+         "derivatives in request order on both code paths (C17_gradient1, C17_gradient1_dual2), gradient2 entry (i,j) = "
+         "2 x stored half-Hessian per name pair (C17_gradient2), manifold elements (C17_manifold, C17_manifold_elems), "
+         "and the PRODUCT RULE ON MANIFOLDS: over any field with 2 != 0, for all layouts, the manifold element of a*b has "
+         "the value and gradient of M(a)*b + a*M(b) (C17_manifold_product_rule, from the second-order name-indexed product "
+         "rule). The same rule is checked on the implementation by a model-free oracle (it exposed a genuine defect, since "
+         "repaired).",
+    design_ref="DESIGN.md §3 C17",
+    note=_corr + "theorems over rings/fields; f64 rounding modelled.",
+    technique="Lean 4 proof over list model + exhaustive request-order correspondence + model-free oracle"),
+ "C18": dict(
+    text="Lean 4 theorems for every scalar type (no algebraic law, so f64 itself): the 3x3 set_order table and value "
+         "preservation (C18_set_order, C18_values_preserved, C18_names_attached), From conversions (C18_from), Number "
+         "arithmetic = contained-type arithmetic and is refused exactly for Dual/Dual2 mixes (C18_number_ops, "
+         "C18_number_ops_refusal, C18_number_cmp_refusal). Correspondence exhaustive over kind x kind x operator.",
+    design_ref="DESIGN.md §3 C18",
+    note=_corr + "refusal = panic observed through catch_unwind.",
+    technique="Lean 4 proof (case analysis, definitional) + exhaustive differential correspondence"),
+ "C19": dict(
+    text="Lean 4 theorems: comparisons depend on values only (C19_ord), abs flips value and all derivative arrays "
+         "together (C19_abs), sum = left fold from zero (C19_sum), a % b = a - trunc(a/b) b in value and per-name "
+         "derivative over any field (C19_rem, C19_rem_def, C19_rem_float), zero/one neutrality (C19_neutral).",
+    design_ref="DESIGN.md §3 C19",
+    note=_corr + "fmod vs a - trunc(a/b) b rounding for huge quotients not modelled; abs at exactly 0 follows the code's `> 0` test.",
+    technique="Lean 4 proof over list model + differential correspondence"),
  "C20": dict(
     text="Lean 4 theorems over a model in which every panic site of the implementation is an explicit marker: "
          "add_days / add_bus_days / lag return a value (or the documented error) for EVERY day count (C20_add_days_total, "
